@@ -72,6 +72,7 @@ type Op struct {
 	Op      string   `json:"op"`
 	Batch   []Posted `json:"batch,omitempty"`
 	Res     []string `json:"res,omitempty"`
+	How     []string `json:"how,omitempty"` // path of Put per alert: new, replace, merge, sreplace, smerge (s = same stamp), invalid
 	Code    int      `json:"code,omitempty"`
 	D       int64    `json:"d,omitempty"`
 	Deleted []string `json:"deleted,omitempty"`
@@ -128,9 +129,19 @@ type Alt struct {
 	Res []string `json:"res"`
 }
 
+// Swap is an outcome in which, at equal stamps, an earlier submission overwrote a later
+// one (Gen_Alerts!Swaps); Fixed: the statement forbids it (Alerts!OrderClauses).
+type Swap struct {
+	St    StMap    `json:"st"`
+	Lim   int      `json:"lim"`
+	Res   []string `json:"res"`
+	Fixed bool     `json:"fixed"`
+}
+
 type Step struct {
 	E     Op    `json:"e"`
 	T     int64 `json:"t"`
+	T0    int64 `json:"t0"` // model time before the step
 	St    StMap `json:"st"`
 	Lim   int   `json:"lim"`
 	Gcper int64 `json:"gcper"`
@@ -139,6 +150,7 @@ type Step struct {
 		May  []Shown `json:"may"`
 	} `json:"vis"`
 	Alts    []Alt    `json:"alts"`
+	Swaps   []Swap   `json:"swaps"`
 	Over    []string `json:"over"`
 	F4      []string `json:"f4"`
 	Refused []int    `json:"refused"`
@@ -206,6 +218,9 @@ func ReplayFile(t *testing.T, res *hx.Result, in string, lib *Lib, mode Mode) {
 			}
 			defer y.Close()
 			time.Sleep(unit / 2) // model time 0
+			if h[0].T0 > 0 {
+				time.Sleep(time.Duration(h[0].T0) * unit) // the behaviour starts at a later instant (Gen_AlertsDup)
+			}
 			curSil := ""
 			prevF4 := []string{}
 			for j, st := range h {
@@ -251,12 +266,25 @@ func ReplayFile(t *testing.T, res *hx.Result, in string, lib *Lib, mode Mode) {
 						return
 					}
 					valid := 0
+					perSet := map[string]int{}
 					for k, p := range st.E.Batch {
 						if st.E.Res[k] == "invalid" {
 							res.Count("invalid_alerts", 1)
 							continue
 						}
 						valid++
+						perSet[lib.Canon[p.Ls]]++
+						if k < len(st.E.How) {
+							switch st.E.How[k] {
+							case "smerge":
+								res.Count("same_stamp_merges", 1) // equal stamps, overlapping ranges: alert.Merge decides
+								if len(st.E.Batch) == 1 {
+									res.Count("same_instant_request_merges", 1)
+								}
+							case "sreplace":
+								res.Count("same_stamp_replaces", 1) // equal stamps, disjoint ranges
+							}
+						}
 						if len(lib.Labels[p.Ls]) != len(lib.Labels[lib.Canon[p.Ls]]) {
 							res.Count("empty_valued_label_alerts", 1)
 						}
@@ -264,6 +292,22 @@ func ReplayFile(t *testing.T, res *hx.Result, in string, lib *Lib, mode Mode) {
 					if st.E.Code == 400 && valid > 0 {
 						res.Count("mixed_batches", 1)
 						nontrivial = true
+					}
+					for _, n := range perSet {
+						if n > 1 {
+							res.Count("bodies_with_duplicates", 1)
+							break
+						}
+					}
+					if len(st.Swaps) > 0 {
+						res.Count("same_stamp_order_matters", 1) // the outcome depends on which of the two is taken as the younger
+						for _, sw := range st.Swaps {
+							if sw.Fixed {
+								res.Count("same_stamp_order_decided_by_statement", 1)
+								nontrivial = true
+								break
+							}
+						}
 					}
 				case "tick", "tickgc":
 					time.Sleep(unit)
@@ -325,6 +369,18 @@ func ReplayFile(t *testing.T, res *hx.Result, in string, lib *Lib, mode Mode) {
 							return
 						}
 					}
+					for _, sw := range st.Swaps {
+						if !got.equal(sw.St) || int(lim) != sw.Lim {
+							continue
+						}
+						if !sw.Fixed {
+							// equal stamps, an outcome the statement leaves open: not judged
+							res.Count("stamp_drift", 1)
+							return
+						}
+						bad("stamp-order", "stored alerts after "+st.E.Op+": of two submissions of one label set with the same receive stamp the EARLIER one overwrote the later one", st.St, got)
+						return
+					}
 					class := "state"
 					if mode.Limits && st.E.Op == "post" {
 						// which alerts were stored (updatedAt = now)?
@@ -345,6 +401,15 @@ func ReplayFile(t *testing.T, res *hx.Result, in string, lib *Lib, mode Mode) {
 				if st.E.Op == "post" {
 					for k, p := range st.E.Batch {
 						if st.E.Res[k] != "ok" {
+							continue
+						}
+						last := true // (the last submission of its label set in the body)
+						for k2 := k + 1; k2 < len(st.E.Batch); k2++ {
+							if st.E.Res[k2] == "ok" && lib.Canon[st.E.Batch[k2].Ls] == lib.Canon[p.Ls] {
+								last = false
+							}
+						}
+						if !last {
 							continue
 						}
 						r := st.St[lib.Canon[p.Ls]]
